@@ -345,9 +345,17 @@ def main(argv):
             else:
                 keys, arms = et
                 want_keys = list(mt["ids"]) + (["payload.len()"] if mt["with_size"] else [])
-                want_arms = [(a["child"], sorted([p["t"] + ([p["len"]] if mt["with_size"] else []) for p in a["pats"]], key=json.dumps))
+                # (the patterns of an arm as a SET: an or-pattern that lists one alternative twice — two descendants that add no
+                #  constraint of their own — matches what the pattern listed once matches)
+                def uniq(ps):
+                    out = []
+                    for x in sorted(ps, key=json.dumps):
+                        if not out or out[-1] != x:
+                            out.append(x)
+                    return out
+                want_arms = [(a["child"], uniq([p["t"] + ([p["len"]] if mt["with_size"] else []) for p in a["pats"]]))
                              for a in mt["arms"]]
-                got_arms = [(c, sorted(t, key=json.dumps)) for c, t in arms]
+                got_arms = [(c, uniq(t)) for c, t in arms]
                 if keys == want_keys and got_arms == want_arms:
                     run.count("tables_equal")
                 else:
